@@ -537,7 +537,21 @@ def set_method(I, s, name, args, kwargs):
     cur = I.heap[s.oid]
     if name == 'add':
         (x,) = args
+        x = I.force_some(x)
         I.heap[s.oid] = SSetV(smt.SetUnion(cur.t, smt.SetSingleton(I.term_of(x))), cur.ety)
+        return None
+    if name == 'update' and len(args) == 1 and isinstance(I.strip_opt(args[0]), (str, SStr)):
+        # set.update(<string>) adds the CHARACTERS of the string
+        st = I.term_of(args[0])
+        chars = I.fresh_term('chars_of', cur.t.sort, False)
+        # true facts about the set of characters of st (quantifier-free on purpose: refutable)
+        n = smt.StrLen(st)
+        c0, c1 = smt.StrAt(st, smt.IntC(0)), smt.StrAt(st, smt.IntC(1))
+        I.assume(smt.Implies(smt.Eq(n, smt.IntC(0)), smt.Eq(chars, smt.SetEmpty(STR))))
+        I.assume(smt.Implies(smt.Eq(n, smt.IntC(1)), smt.Eq(chars, smt.SetSingleton(st))))
+        I.assume(smt.Implies(smt.Gt(n, smt.IntC(1)), smt.And(smt.Not(smt.SetMember(st, chars)), smt.SetMember(c0, chars),
+                                                             smt.SetMember(c1, chars))))
+        I.heap[s.oid] = SSetV(smt.SetUnion(cur.t, chars), cur.ety)
         return None
     if name in ('discard', 'remove'):
         (x,) = args
